@@ -26,6 +26,7 @@ type ty struct {
 	elem   *ty
 	n      int
 	fields []fld
+	keys   []string // tDict: keys known to exist (environment values only)
 }
 
 type fld struct {
@@ -94,7 +95,7 @@ type G struct {
 }
 
 func (g *G) int(lo, hi int, l string) int { return rapid.IntRange(lo, hi).Draw(g.t, l) }
-func (g *G) bool(l string) bool          { return rapid.Bool().Draw(g.t, l) }
+func (g *G) bool(l string) bool           { return rapid.Bool().Draw(g.t, l) }
 
 // pct: rapid's integer draws are biased towards small values for wide ranges; a range
 // of ten values is close to uniform (about 70% uniform + 30% skewed to small values),
@@ -214,6 +215,7 @@ func (g *G) randVal(t *ty) Val {
 			v.Keys = append(v.Keys, k)
 			v.Elems = append(v.Elems, g.randVal(t.elem))
 		}
+		t.keys = append([]string{}, v.Keys...)
 		if len(v.Keys) > 0 && t.elem.prim() && g.pct(50, "asmap") {
 			v.T = "map"
 		}
@@ -360,6 +362,14 @@ func (g *G) pathsFrom(base *Node, t, w *ty, d int, out *[]*Node) {
 	case tSeq:
 		for i := 0; i < t.n && i < 2; i++ {
 			g.pathsFrom(&Node{K: KIndex, A: base, B2: numLit(fmt.Sprint(i))}, t.elem, w, d-1, out)
+		}
+	case tDict:
+		for i, k := range t.keys {
+			if i%2 == 0 && isIdent(k) {
+				g.pathsFrom(&Node{K: KAttr, A: base, Name: k}, t.elem, w, d-1, out)
+			} else {
+				g.pathsFrom(&Node{K: KIndex, A: base, B2: strLit(k)}, t.elem, w, d-1, out)
+			}
 		}
 	}
 }
@@ -841,6 +851,25 @@ func (g *G) dictExpr(w *ty, d int) *Node {
 }
 
 func (g *G) splat(elem *ty, d int) *Node {
+	// prefer a variable in scope that is a sequence of objects with a field of the wanted type
+	if g.bool("splatvar") {
+		seen := map[string]bool{}
+		for i := len(g.scope) - 1; i >= 0; i-- {
+			v := g.scope[i]
+			if seen[v.name] {
+				continue
+			}
+			seen[v.name] = true
+			if v.t.k != tSeq || v.t.elem == nil || v.t.elem.k != tObj {
+				continue
+			}
+			for _, f := range v.t.elem.fields {
+				if compat(f.t, elem) {
+					return &Node{K: KSplat, A: &Node{K: KVar, Name: v.name}, Each: &Node{K: KAttr, A: &Node{K: KIt}, Name: f.name}, Full: g.bool("fullsplat")}
+				}
+			}
+		}
+	}
 	fname := pickS(g, attrNames, "splatf")
 	ot := &ty{k: tObj, fields: []fld{{fname, elem}}}
 	if g.pct(40, "splat2f") {
